@@ -383,25 +383,34 @@ def is_loop_key(v):
         syms = set(ck[2])
     elif ck[0] == "pair":
         syms = set(ck[2]) | set(ck[3])
-    return bool(syms) and all(isinstance(s, tuple) and s[0] == "b" and s[1] == v["fid"] for s in syms)
+    run = v.get("_run")
+    fids = set(c[0] for c in run.chain(v)) if run is not None else {v["fid"]}
+    return bool(syms) and all(isinstance(s, tuple) and s[0] == "b" and s[1] in fids for s in syms)
 
 
 def must_in_iteration(A, run, v):
-    """the fact's block lies on every taken path from the binding of its key back to the loop header"""
+    """the fact (or the call leading to it) lies on every taken path from the binding of its key back to the loop header"""
     ck = classify_key(v["key"])
     syms = sorted(ck[1] if ck[0] == "job" else ck[2], key=repr)
     if not syms:
         return False, "no key symbol"
     sym = syms[0]
-    head = sym[2]
-    body = A.facts.body(v["fn"])
+    if not (isinstance(sym, tuple) and sym[0] == "b"):
+        return False, "key not bound by a loop"
+    fid, head = sym[1], sym[2]
+    pos = run.pos_in(v, fid)
+    if pos is None:
+        return False, "key bound in another activation"
+    body = A.facts.body(pos[0])
+    fbb = pos[1]
     sw = body.term(head)["t"]
     loop = body.natural_loop(head)
-    errs = error_exit_blocks(A, body)
+    from rules_more import residual_blocks
+    errs = error_exit_blocks(A, body) | residual_blocks(body)
     for s0 in [s_ for s_ in body.succs(sw) if s_ in loop]:
-        r = run.taken_reachable(v["fid"], s0, {v["bb"]} | errs)
+        r = run.taken_reachable(fid, s0, {fbb} | errs)
         if head in r:
-            return False, "iteration can complete without bb%d" % v["bb"]
+            return False, "iteration can complete without bb%d" % fbb
     return True, ""
 
 
